@@ -70,8 +70,17 @@ def e1_exhaustive_scan(F, r):
     arm = mir.reach(sfn, [none_edge[1]], blocked=[none_edge[0]])
     names = [sfn["bbs"][b]["t"]["callee"].split("::")[-1] for b in sorted(arm) if sfn["bbs"][b]["t"]["k"] == "call" and "Iterator" in sfn["bbs"][b]["t"]["callee"]]
     limiting = [n for n in names if n in ("take", "take_while", "step_by", "filter", "skip_while", "nth", "find", "rev")]
+    loop_form = False
+    if "try_fold" not in names and "next" in names:
+        loops = mir.natural_loops(sfn)
+        bodies = loops.values() if isinstance(loops, dict) else loops
+        nxt = [b for b in arm if sfn["bbs"][b]["t"]["k"] == "call" and sfn["bbs"][b]["t"]["callee"].endswith("Iterator::next")]
+        mapc = [b for b in arm if sfn["bbs"][b]["t"]["k"] == "call" and sfn["bbs"][b]["t"]["callee"].split("::")[-1] in ("call_mut", "call", "call_once")]
+        loop_form = any(any(b in body for b in nxt) and any(b in body for b in mapc) for body in bodies)
     if "try_fold" in names and not limiting:
         r.ok("sample_best: exhaustive arm", f"legs().{'.'.join(names)}: every leg from `skip` on is folded")
+    elif loop_form and not limiting:
+        r.ok("sample_best: exhaustive arm", "explicit loop: every leg from `skip` on is handed to the leg analysis (loop over next() calling the map function)")
     else:
         r.fail("sample_best: exhaustive arm", f"the exhaustive leg scan is limited by {limiting or 'a missing try_fold'}: not every leg is evaluated", F.loc(sb_))
 
@@ -163,6 +172,6 @@ def run(ctx):
     ctx.run("C05-R4", "capacity summaries recurrence (feeds the capacity gate)", c05.r4_capacity_recurrence, floor=1)
     ctx.run("C05-R3", "activity time formulas (estimate_departure / estimate_arrival)", c05.r3_activity_time_formulas, floor=2)
     ctx.run("C05-R2", "latest-arrival recurrence of the backward pass (feeds the time-window gate)", c05.r2_latest_arrival_recurrence, floor=1)
-    ctx.run("C01-O3", "can_fit(capacity, load) iff load <= capacity in every dimension", c01.o3_can_fit_law, floor=7)
+    ctx.run("C01-O3", "can_fit(capacity, load) iff load <= capacity in every dimension", c01.o3_can_fit_law, floor=4)
     ctx.run("C01-O4", "can_fit asked of the capacity about the load", c01.o4_can_fit_roles, floor=8)
     ctx.run("C02-O1", "leg search honours the start index (sub-jobs left to right)", c02.o1_subjob_order, floor=3)
